@@ -649,6 +649,15 @@ func (c *FnCtx) loopEntry(fr *Frame, st *State, li *loopInfo) {
 		k := cellKey{frame: fr.id, alloc: li.rangeAlloc}
 		if v, ok := st.cells[k].(Sc); ok && v.T.Sort == SInt {
 			st.pc = c.vc.Name("pc", And(st.pc, App(SBool, ">=", v.T, IntLit(-1))))
+			// ... and it is the index of an element already visited: below the length the
+			// header compares against (computed once, before the loop)
+			for _, in := range li.head.Instrs {
+				if b, ok := in.(*ssa.BinOp); ok && b.Op == token.LSS {
+					if lv, ok := fr.regs[b.Y].(Sc); ok && lv.T.Sort == SInt && !li.blocks[instrBlock(b.Y)] {
+						st.pc = c.vc.Name("pc", And(st.pc, Or(Eq(v.T, IntLit(-1)), App(SBool, "<", v.T, lv.T))))
+					}
+				}
+			}
 		}
 	}
 	if li.spec != nil {
@@ -1128,4 +1137,11 @@ func (c *FnCtx) havocGhostLocals(fr *Frame, st *State, li *loopInfo) {
 			st.cells[l.key] = c.freshValue(l.Type, "hv$ghost$"+n)
 		}
 	}
+}
+
+func instrBlock(v ssa.Value) *ssa.BasicBlock {
+	if in, ok := v.(ssa.Instruction); ok {
+		return in.Block()
+	}
+	return nil
 }
